@@ -199,7 +199,22 @@ func callEntry(which int, text []byte, plan simrt.ReadPlan) (cr callResult) {
 				tb, err := sp.LALRParsingTable()
 				if (tb == nil) == (err == nil) || (err != nil && err.Error() == "") {
 					cr.name, cr.gotNil, cr.err = "Spec.LALRParsingTable", tb == nil, err
+					return
 				}
+			}
+			if n <= 8 {
+				// the other two table constructions are entry points of the package as well
+				tb, err := sp.SLRParsingTable()
+				if (tb == nil) == (err == nil) || (err != nil && err.Error() == "") {
+					cr.name, cr.gotNil, cr.err = "Spec.SLRParsingTable", tb == nil, err
+					return
+				}
+				tb, err = sp.GLRParsingTable()
+				if (tb == nil) == (err == nil) || (err != nil && err.Error() == "") {
+					cr.name, cr.gotNil, cr.err = "Spec.GLRParsingTable", tb == nil, err
+					return
+				}
+				_ = sp.Productions()
 			}
 		}
 	}
